@@ -348,6 +348,25 @@ def gen_C02(w, tier):
                     for cyc in ((0, 0), (1, 0), (0, 1)):
                         add(ps.name, ps, False, pw, ids, x, y, "idB-equals-idA", idsB=(ids[0], ids[0]), cyclesA=cyc[0], cyclesB=cyc[1])
                         add(ps.name, ps, False, pw, ids, x, y, "idA-equals-idB", idsB=(ids[1], ids[1]), cyclesA=cyc[0], cyclesB=cyc[1])
+    # passwords that a folding / normalising / truncating step would identify: the other end holds the digest, the hex
+    # digest, a 64-byte prefix, a padded, stripped, case-folded or Unicode-normalised form of the password
+    import hashlib as _hl, unicodedata as _ud
+    ps = w.ps["ed"]
+    bases = [b"pw", b"Password 1 ", b"L" * 65, bytes(range(1, 201)), b"cafe\xcc\x81", b"\xef\xac\x81sh", b"\xef\xbc\x91\xef\xbc\x92"]
+    for k_, pw in enumerate(bases if big else bases[:2] + [bases[2 + (w.rng.randrange(2))]] + bases[4:]):
+        alts = [("sha256", _hl.sha256(pw).digest()), ("sha256-hex", _hl.sha256(pw).hexdigest().encode()), ("prefix64", pw[:64]),
+                ("nul-padded", pw + b"\x00"), ("stripped", pw.strip()), ("lower", pw.lower()), ("upper", pw.upper())]
+        try:
+            t = pw.decode("utf-8")
+            alts += [("nfkc", _ud.normalize("NFKC", t).encode("utf-8")), ("nfc", _ud.normalize("NFC", t).encode("utf-8"))]
+        except UnicodeDecodeError:
+            pass
+        seen = {pw}
+        for (what, other) in alts:
+            if other in seen:
+                continue
+            seen.add(other)
+            add(ps.name, ps, k_ % 2 == 1, pw, (b"a", b"b"), w.scalar(ps, 0), w.scalar(ps, 0), "password-alias-" + what, pwB=other)
     # different groups
     for a_, b_ in (("ed", "1024"), ("1024", "2048"), ("3072", "2048")):
         ps, psB = w.ps[a_], w.ps[b_]
